@@ -84,3 +84,13 @@ Proof.
   split; [apply (no_error _ (case_objcls c)); exact HF|].
   apply (match_run_lax (case_cmodel c) (case_objcls c)); auto using sub_trans_of_b, typed_of_b.
 Qed.
+
+(* ... and the rows reported for select / entity_selection are the Spec's projections *)
+Theorem fragment_flag_rows c : in_F c = true ->
+  forall r, In r (run_rows (case_cmodel c) (case_world c) (c_rootsel c) (c_T c) (c_pat c) (c_dom c)) <->
+            In r (spec_rows (sub (case_cmodel c)) (case_world c) (c_rootsel c) (c_T c) (c_pat c) (c_dom c)).
+Proof.
+  unfold in_F. intros H. apply andb_true_iff in H. destruct H as [H H0]. apply andb_true_iff in H. destruct H as [H Hty].
+  apply andb_true_iff in H. destruct H as [HF Htr].
+  apply (match_rows_exact (case_cmodel c) (case_objcls c)); auto using sub_trans_of_b, typed_of_b.
+Qed.
